@@ -38,3 +38,26 @@ int count_volumes_bad(const unsigned char *table)
     }
   return found;
 }
+
+// R-C01-7: the catalogue slot of a volume counted from the volumes present
+#include <vector>
+struct VolLoc { int cat; unsigned long s, e; char v; VolLoc(int c, unsigned long a, unsigned long b, char l) : cat(c), s(a), e(b), v(l) {} };
+std::vector<VolLoc> find_volumes_bad(const unsigned char *table, unsigned spt)
+{
+  std::vector<VolLoc> locations_;
+  static const char labels[] = "ABCDEFGH";
+  char label;
+  unsigned offset = 8;
+  int catalog_sector = 0;
+  for (int i = 0; (label = labels[i]) != '\0'; ++i)
+    {
+      const unsigned track = table[offset];
+      offset += 2u;
+      if (track == 0)
+	continue;
+      unsigned long start = track * spt;
+      locations_.emplace_back(catalog_sector, start, start, label);	// BAD
+      catalog_sector += 2;
+    }
+  return locations_;
+}
